@@ -131,10 +131,10 @@ def classify_kernel(mod, name, fn):
         ixs = list(ix.elts) if isinstance(ix, ast.Tuple) else [ix]
         tgt = n.targets[0].id
         if base in arrs and len(ixs) < arrs[base] and tgt not in views:
-          views[tgt] = (base, idx_class(ixs[0]), arrs[base] - len(ixs))
+          views[tgt] = (base, idx_class(ixs[0]), arrs[base] - len(ixs), ast.unparse(ix))
           changed = True
         elif base in views and tgt not in views and len(ixs) < views[base][2]:
-          views[tgt] = (views[base][0], views[base][1], views[base][2] - len(ixs))
+          views[tgt] = (views[base][0], views[base][1], views[base][2] - len(ixs), views[base][3] + ", " + ast.unparse(ix))
           changed = True
 
   def record(sub, rw):
@@ -144,9 +144,10 @@ def classify_kernel(mod, name, fn):
     ix = sub.slice
     ixs = list(ix.elts) if isinstance(ix, ast.Tuple) else [ix]
     if base in arrs:
-      accesses.append({"param": base, "ndim": arrs[base], "idx0": idx_class(ixs[0]), "rw": rw, "line": sub.lineno})
+      accesses.append({"param": base, "ndim": arrs[base], "idx0": idx_class(ixs[0]), "rw": rw, "line": sub.lineno, "idx": ast.unparse(sub.slice)})
     elif base in views:
-      accesses.append({"param": views[base][0], "ndim": arrs[views[base][0]], "idx0": views[base][1], "rw": rw, "line": sub.lineno})
+      accesses.append({"param": views[base][0], "ndim": arrs[views[base][0]], "idx0": views[base][1], "rw": rw, "line": sub.lineno,
+                       "idx": views[base][3] + ", " + ast.unparse(sub.slice)})
 
   for n in ast.walk(fn):
     if isinstance(n, (ast.Assign, ast.AugAssign)):
@@ -166,7 +167,8 @@ def classify_kernel(mod, name, fn):
           c = views[a0.id][1]
         else:
           c = "OTHER"
-        accesses.append({"param": root, "ndim": arrs[root], "idx0": c, "rw": "a", "line": n.lineno})
+        accesses.append({"param": root, "ndim": arrs[root], "idx0": c, "rw": "a", "line": n.lineno, "idx": ", ".join(ast.unparse(x) for x in n.args[1:-1]),
+                         "op": ast.unparse(n.func).split("_", 1)[1]})
       elif isinstance(a0, ast.Subscript):
         record(a0, "a")
   # reads: every Load subscript
@@ -352,6 +354,20 @@ def run():
     for p, a in zip(params, args):
       c, f = classify_binding(a, ftab)
       bindings.setdefault(key, {}).setdefault(p, set()).add((c, f))
+  # parameters of one kernel bound to the same array expression at some launch (in/out aliasing)
+  alias_pairs = {}
+  for l in launches:
+    key = l.get("kernel")
+    if key is None or l["inputs"] is None or l.get("arity_mismatch"):
+      continue
+    params = [p for p, _ in kernels[key]["params"]]
+    args = l["inputs"] + l["outputs"]
+    nin = len(l["inputs"])
+    for i, (p, a) in enumerate(zip(params, args)):
+      for j in range(max(i + 1, nin), len(args)):
+        if args[j] == a and dict(kernels[key]["params"]).get(p, 0) > 0 and a not in ("None",):
+          alias_pairs.setdefault(key, {})[p] = params[j]
+  json.dump(alias_pairs, open(os.path.join(GEN, "aliases.json"), "w"), indent=0, sort_keys=True)
   # join accesses with bindings
   rows = []
   for key, k in kernels.items():
@@ -359,7 +375,7 @@ def run():
       bs = bindings.get(key, {}).get(a["param"], {("Unbound", "")})
       for c, f in sorted(bs, key=lambda x: (x[0], str(x[1]))):
         rows.append({"kernel": key, "param": a["param"], "ndim": a["ndim"], "idx0": a["idx0"], "rw": a["rw"], "line": a["line"], "fclass": c, "field": f or "",
-                     "world": k["world"] or ""})
+                     "world": k["world"] or "", "idx": a.get("idx", ""), "op": a.get("op", "")})
   stats = {}
   for r in rows:
     stats[(r["fclass"], r["idx0"].split(":")[0], r["rw"])] = stats.get((r["fclass"], r["idx0"].split(":")[0], r["rw"]), 0) + 1
@@ -377,29 +393,58 @@ def lstr(s):
 
 def emit_lean(rows, launches, kernels):
   from .emit import write_if_changed
+  names = {}
+
+  def nid(x):
+    x = str(x)
+    if x not in names:
+      names[x] = len(names)
+    return names[x]
+
+  nid("")
+  seen_rows, uniq = set(), []
+  for r in rows:
+    k = (r["kernel"], r["param"], r["field"], r["ndim"], r["idx0"], r["rw"], r["fclass"], r.get("idx", ""), r.get("op", ""))
+    if k not in seen_rows:
+      seen_rows.add(k)
+      uniq.append(r)
+  rows = uniq
   L = ["/- GENERATED by harness/translate/graph.py from /repo — access classes of every kernel and the launch list. -/",
        "import MjwVerif.Model.Discipline", "namespace Mjw.Gen.Graph", "open Mjw.Discipline", ""]
-  # chunk the table to keep elaboration fast
   chunk = 200
-  names = []
+  cnames = []
+  body = []
+  mods = []
   for ci in range(0, len(rows), chunk):
     nm = f"rows{ci // chunk}"
-    names.append(nm)
-    L.append(f"def {nm} : List Access := [")
+    cnames.append(nm)
+    body.append(f"def {nm} : List Access := [")
     part = rows[ci: ci + chunk]
     for i, r in enumerate(part):
       idx = r["idx0"]
       if idx.startswith("WMOD:"):
-        ic = f"(IdxClass.wmod {lstr(idx[5:])})"
+        ic = f"(IdxClass.wmod {nid(idx[5:])})"
       else:
         ic = {"W": "IdxClass.w", "TID": "IdxClass.tid", "CONST": "IdxClass.const", "OTHER": "IdxClass.other"}[idx]
       rw = {"r": "RW.read", "w": "RW.write", "a": "RW.atomic"}[r["rw"]]
       fc = {"ModelBatched": "FClass.modelBatched", "ModelShared": "FClass.modelShared", "DataWorld": "FClass.dataWorld", "DataFlat": "FClass.dataFlat",
             "Global": "FClass.global", "Temp": "FClass.temp", "Unbound": "FClass.unbound", "Unknown": "FClass.unknown", "ModelScalar": "FClass.unknown",
             "DataScalar": "FClass.unknown", "Scalar": "FClass.unknown"}[r["fclass"]]
-      L.append(f"  ⟨{lstr(r['kernel'])}, {lstr(r['param'])}, {lstr(r['field'])}, {r['ndim']}, {ic}, {rw}, {fc}, {r['line']}⟩" + ("," if i < len(part) - 1 else ""))
-    L.append("]")
-  L.append("def rows : List Access := " + " ++ ".join(names) if names else "def rows : List Access := []")
+      mname = r["kernel"].split(".")[0]
+      if mname not in mods:
+        mods.append(mname)
+      body.append(f"  ⟨{mods.index(mname)}, {nid(r['kernel'])}, {nid(r['param'])}, {nid(r['field'])}, {r['ndim']}, {ic}, {rw}, {fc}, 0, {nid(r.get('idx', ''))}, {nid(r.get('op', ''))}⟩"
+                  + ("," if i < len(part) - 1 else ""))
+    body.append("]")
+  L.append("/-- interned names (kernels, parameters, fields, index texts, atomic ops) -/")
+  L.append("def names : Array String := #[" + ", ".join(lstr(k) for k, _ in sorted(names.items(), key=lambda kv: kv[1])) + "]")
+  L.append("def moduleNames : List String := [" + ", ".join(lstr(m) for m in mods) + "]")
+  L.append("def moduleId (m : String) : Nat := moduleNames.idxOf m")
+  L.append("def name (i : Nat) : String := names.getD i \"?\"")
+  L.append("def named (l : List (Nat × Nat)) : List (String × String) := l.map (fun p => (name p.1, name p.2))")
+  L.append("")
+  L += body
+  L.append("def rows : List Access := " + " ++ ".join(cnames) if cnames else "def rows : List Access := []")
   L.append("")
   L.append("end Mjw.Gen.Graph")
   write_if_changed(os.path.join(GEN, "Graph.lean"), "\n".join(L) + "\n")
